@@ -254,3 +254,33 @@ func lemmaContConnTrack(flags uint16, zone uint32, ipMin, ipMax net.IP, pmin uin
 // through Parse; the contracts state that parsing succeeds and where every record's fields come from.
 func lemmaParsePortDescReply(b []byte) (util.Message, error) { return Parse(b) }
 func lemmaParseFlowStatsReply(b []byte) (util.Message, error) { return Parse(b) }
+
+// thorough tier: larger container instances
+func lemmaContGroupMod2x2(g *GroupMod, ba, bb *Bucket, a1 *ActionOutput, a2 *ActionGroup, a3 *ActionSetqueue, a4 *ActionPopVlan) (d util.Message, err error, b1, b2 []byte) {
+	ba.Actions = []Action{a1, a2}
+	bb.Actions = []Action{a3, a4}
+	g.Buckets = []Bucket{*ba, *bb}
+	b1, _ = g.MarshalBinary()
+	d, err = Parse(b1)
+	if err != nil || d == nil {
+		return
+	}
+	b2, _ = d.MarshalBinary()
+	return
+}
+
+func lemmaContMatch4(port uint32, mac, mask net.HardwareAddr, et uint16, ip, ipmask net.IP) (d *Match, err error, b1, b2 []byte) {
+	m := NewMatch()
+	m.AddField(*NewInPortField(port))
+	m.AddField(*NewEthDstField(mac, &mask))
+	m.AddField(*NewEthTypeField(et))
+	m.AddField(*NewIpv4DstField(ip, &ipmask))
+	b1, _ = m.MarshalBinary()
+	d = new(Match)
+	err = d.UnmarshalBinary(b1)
+	if err != nil {
+		return
+	}
+	b2, _ = d.MarshalBinary()
+	return
+}
